@@ -111,5 +111,51 @@ CHECKS = {
         note="Header layout as load_surfer documents it; texts with tokens that are not finite Python floats are outside the oracle; libFuzzer campaigns are pinned only approximately by -seed/-runs.",
         technique="grammar-based property testing (Hypothesis) + coverage-guided fuzzing (atheris) with a differential strict-parser oracle",
     ),
+    "C01": dict(
+        text="Generated clouds of pairwise distinct points (any scale/aspect/offset class, 1-D/2-D arrays, up to 300 points in the thorough tier) and finite "
+             "data; every exact-interpolator configuration is fitted and asked for its own data back: Spline/VectorSpline2D within 64*kappa*eps*max|d| "
+             "with kappa from the harness' own column-scaled Jacobian, KNeighbors(1) bitwise, Linear/Cubic within 1e-6 with no NaN at data points, nine "
+             "Chain/Vector assemblies; Trend(N) fitted to exact values of integer-coefficient polynomials must reproduce them at other locations.",
+        design_ref="DESIGN.md 5 (C01)",
+        note="Systems with kappa > 1e10 (Trend: 1e8) are skipped and counted; clouds SciPy cannot triangulate are outside the domain; open known finding D9 (NaN at hull-vertex "
+             "data points in Linear/Cubic) is matched narrowly and reported as KNOWN-FINDING.",
+        technique="property-based testing (Hypothesis) with a conditioning-aware round-trip oracle",
+    ),
+    "C02": dict(
+        text="Trend, Spline and VectorSpline2D fits (weights none/non-uniform/per component, damping none or 1e-8..1e2, forces at the data or elsewhere) "
+             "are compared with an independently assembled (own kernels) and independently solved (SVD of the augmented, column-scaled system) weighted "
+             "damped least-squares problem: predictions within a kappa-derived bound, and optimality asserted directly by evaluating the objective at "
+             "verde's public parameters; plus invariance of undamped fits under a common weight factor and vanishing influence of a vanishing weight.",
+        design_ref="DESIGN.md 5 (C02)",
+        note="Under-determined undamped problems and kappa > 1e10 are skipped; prediction comparison is skipped (objective comparison kept) when its bound exceeds 1e-6 relative.",
+        technique="property-based testing (Hypothesis): differential against an independent numpy-only reference solver + metamorphic relations",
+    ),
+    "C03": dict(
+        text="Kernel-level oracle in 50-digit arithmetic (mpmath) on the float64 coordinate differences the code forms: Spline.jacobian entries and predict "
+             "with externally set forces vs r^2(ln r - 1) at prescribed distances (0, 1e-300 ... 1-2^-53, 1, 1+2^-52, e down/up, 1e8); VectorSpline2D "
+             "blocks [[ee, ne], [ne, nn]] vs the elastic Green's functions; Trend columns/predict vs the documented monomial order for degrees 0..6; "
+             "CheckerBoard vs amplitude sin cos with default wavelengths; Linear/Cubic bitwise vs SciPy's interpolators; bitwise translation invariance on dyadic coordinates.",
+        design_ref="DESIGN.md 5 (C03)",
+        note="Vector spline pairs closer than 1e-150 count as coincident (positive mindist); engine='numba' not exercisable (numba absent).",
+        technique="property-based testing (Hypothesis) against high-precision closed-form models and a SciPy differential",
+    ),
+    "C04": dict(
+        text="Metamorphic pairs of fit/predict executions per gridder (10 kinds): the same element sequence as 2-D/Fortran/strided/pandas Series (also with "
+             "a reversed index) arrays, int64/int32 dtypes of integer-valued coordinates/data/queries, appended extra coordinates -> predictions agree to "
+             "1e-12 and have the query's shape; permutations of the data points -> agreement within a kappa-derived bound; linear combinations of data "
+             "-> linear combinations of predictions for the gridders that are linear in the data.",
+        design_ref="DESIGN.md 5 (C04)",
+        note="Cubic under permutation only with rescale or unit scale at 1e-2 (SciPy's iterative gradients); KNeighbors ties excluded; kappa > 1e8 skipped.",
+        technique="property-based testing (Hypothesis) with metamorphic relations",
+    ),
+    "C05": dict(
+        text="A harness-defined asymmetric analytic gridder (plus fitted Trend/KNeighbors and CheckerBoard) is gridded/profiled/scattered over generated "
+             "regions, non-square shapes, spacings, registrations, explicit 1-D/meshgrid coordinates, extra coordinates, custom names, 1-3 components "
+             "and invertible projections; every cell is compared with the analytic field evaluated at (easting[j], northing[i]) of the (projected) node, "
+             "coordinate vectors with grid_coordinates/scatter_points, profile distances in projected units, names, dims and metadata.",
+        design_ref="DESIGN.md 5 (C05)",
+        note="Coordinate generators themselves are decided by C07/C13; tolerance 1e-12 relative (1e-9 / 1e-6 through projection round trips).",
+        technique="property-based testing (Hypothesis) with an analytic reference field (any transposition/flip/shift changes values by >= 1)",
+    ),
 }
 NOT_APPLICABLE = {}
